@@ -47,3 +47,13 @@ package streamwriter
 //@   ensures  [seq-refused] logLen() == 0 ==> err != nil && w.nextSeqNumber == old(w.nextSeqNumber)
 //@   ensures  [v1-big-id] !frame.SpecIsV2(fr) && msg0 != nil && msg0.GetID() > 255 ==> err != nil && logLen() == 0
 //@   modifies frame.SpecWriterBuf(w.FrameWriter)[:], w.nextSeqNumber, ghost:log, *fr
+
+// see pkg/frame: the same helper for originated frames
+//@ func encodeMessageInFrame
+//@   inline
+//@   ghostlog (*message.ReadWriter).Write+contract
+//@   requires fr != nil && mp != nil && frame.SpecFrameMessage(fr) != nil && !frame.SpecIsRaw(frame.SpecFrameMessage(fr)) && message.SpecCodecInv(mp)
+//@   ensures  [encoded-once-for-the-frames-own-version] logLen() == 1 && logCallee(0, "(*message.ReadWriter).Write") && logArgIsPtr(0, 0, mp) &&
+//@              logArg(0, 1) == any(old(frame.SpecFrameMessage(fr))) && logArgBool(0, 2) == frame.SpecIsV2(fr) &&
+//@              frame.SpecFrameMessage(fr) == any(logRetAny(0, 0))
+//@   modifies ghost:log, *frame.SpecMessageField(fr)
